@@ -190,6 +190,7 @@ def q_name(nm):
 def gen_history(rng):
     crcs = [rng.getrandbits(32) for _ in range(2)] + [rng.choice([0, 1, 0xFFFFFFFF, 0x0000ABCD, 0xABCD0000])]
     crcs.append(crcs[0] ^ (1 << rng.randrange(32)))
+    crcs.append(crcs[0] & ((1 << (4 * rng.randint(1, 7))) - 1))      # hex digits are a suffix of crcs[0]'s
     ro_init = []
     for _ in range(rng.choice([0, 0, 1, 2])):
         c = rng.choice(crcs)
@@ -496,6 +497,67 @@ def oracle_collision(case):
     return None
 
 
+def crc_suffix_case(case):
+    """'used only when the checksum announced equals the one it was stored under': tables stored under `stored`
+    (in the ro or the rw directory); asking for `asked` must hit iff asked == stored, and then return that table."""
+    from cflib.crazyflie.toccache import TocCache
+    root = mkdtemp()
+    try:
+        ro, rw = os.path.join(root, 'ro'), os.path.join(root, 'rw')
+        os.makedirs(ro)
+        os.makedirs(rw)
+        tabs = {}
+        for i, c in enumerate(case['stored']):
+            tabs[c] = tunjson(case['tables'][i])
+            TocCache(rw_cache=ro if case['where'][i] == 'ro' else rw).insert(c, c03.mk_toc_obj(tabs[c]))
+        for reopen in (False, True):
+            cache = TocCache(ro_cache=ro, rw_cache=rw)
+            if not reopen and case.get('same_object'):
+                # also through the object that did the insert (its _cache_files were appended, not globbed)
+                cache = TocCache(ro_cache=ro, rw_cache=rw)
+                for i, c in enumerate(case['stored']):
+                    if case['where'][i] == 'rw':
+                        cache.insert(c, c03.mk_toc_obj(tabs[c]))
+            for a in case['asked']:
+                got = cache.fetch(a)
+                if a in tabs:
+                    want = [1] + c03.enc_toc(c03.mk_toc_obj(reload_lists(tabs[a])))
+                    if tabs[a] == []:
+                        want = [1, 0]
+                    if enc_fetch(got) != want:
+                        return {'class': 'wrong_table_for_crc', 'case': case, 'expected': 'the table stored under %08X' % a,
+                                'observed': repr(got)[:200], 'detail': 'fetch(0x%08X) does not return what was stored under it' % a}
+                elif got is not None:
+                    return {'class': 'hit_on_different_crc', 'case': case, 'expected': None, 'observed': repr(got)[:200],
+                            'detail': 'fetch(0x%08X) hits although only %s were stored' % (a, ['0x%08X' % c for c in case['stored']])}
+        return None
+    finally:
+        shutil.rmtree(root, ignore_errors=True)
+
+
+def oracle_crc_suffix(rng, fails, count):
+    """checksum pairs where the hex digits of one are a suffix of the other's (leading zeros), both orders,
+    read-only and read-write directory"""
+    n = 0
+    for k in range(count):
+        big = rng.getrandbits(32) | 0x10000000
+        digits = rng.randint(1, 7)
+        small = big & ((1 << (4 * digits)) - 1)
+        if small == 0:
+            small = big & 0xF or 0xA
+            big = (big & ~0xF) | small
+        order = k % 4
+        stored = [[big], [small], [big, small], [small, big]][order]
+        asked = [small, big, big ^ 0x10000000, small | 0x100000 if digits <= 5 else small, (small << 4) & 0xFFFFFFFF, 0]
+        case = {'kind': 'crc_suffix', 'stored': stored, 'asked': asked, 'where': [rng.choice(['ro', 'rw']) for _ in stored],
+                'tables': [tjson(gen_table(rng, n=rng.choice([1, 2, 3]))) for _ in stored], 'same_object': k % 3 == 0}
+        n += 1
+        f = crc_suffix_case(case)
+        if f:
+            fails.append(f)
+    return n
+
+
 def corpus_cases():
     d = os.path.join(coqrun.VERIF, 'corpus', 'C11')
     out = []
@@ -510,6 +572,9 @@ def _run_case(case, rng):
     fails = []
     if case.get('kind') == 'collision':
         f = oracle_collision(case)
+        return [f] if f else []
+    if case.get('kind') == 'crc_suffix':
+        f = crc_suffix_case(case)
         return [f] if f else []
     if case.get('kind') in ('truncate', 'roundtrip'):
         truncation_sweep(tunjson(case['table']), case['crc'], fails)
@@ -589,6 +654,7 @@ def oracle(ctx, deep=False):
                                   'observed': repr(got2)[:200]})
         finally:
             shutil.rmtree(root, ignore_errors=True)
+    n += oracle_crc_suffix(rng, fails, ctx.scale(12, 120))
     best = {}
     for f in fails:
         k = f['class']
